@@ -63,6 +63,8 @@ structure Dir where
   expect : List Bytes := []
   /-- number of `send` calls so far (only used to vary the model's nonce) -/
   sends : Nat := 0
+  /-- payloads of the last `csend`, per sender thread -/
+  cexpect : List (List Bytes) := []
 
 structure St where
   key : Bytes := List.replicate 32 0
@@ -77,7 +79,34 @@ structure St where
   /-- nonces seen on frames captured from the wire -/
   nonces : List Bytes := []
 
-def modelNonce (d : Dir) : Bytes := (List.range 12).map fun i => UInt8.ofNat (d.sends * 13 + i * 7 + 1)
+def nonceOf (k : Nat) : Bytes := (List.range 12).map fun i => UInt8.ofNat (k * 13 + i * 7 + 1)
+def modelNonce (d : Dir) : Bytes := nonceOf d.sends
+
+/-- payload `i` of sender thread `t` of a `csend` (`cpayload` in harness/transport_h.cpp) -/
+def cpayload (len seed t i : Nat) : Bytes := genBytes len (UInt64.ofNat (seed * 1000003 + t * 1009 + i))
+
+/-- index of the first element equal to `x` -/
+def indexOf? (x : Bytes) (l : List Bytes) : Option Nat :=
+  let rec go : List Bytes → Nat → Option Nat
+    | [], _ => none
+    | y :: ys, k => if y == x then some k else go ys (k + 1)
+  go l 0
+
+/-- arrivals classified by sender thread: `n=<k> t0=<indices in arrival order> … unknown=<u>` -/
+def fmtByThread (expect : List (List Bytes)) (got : List Bytes) : String :=
+  let classify (p : Bytes) : Option (Nat × Nat) :=
+    (List.range expect.length).findSome? fun t => (indexOf? p (expect.getD t [])).map fun i => (t, i)
+  let cls := got.map classify
+  let seqs := (List.range expect.length).map fun t =>
+    let idx := cls.filterMap fun c => match c with | some (t', i) => if t' == t then some (toString i) else none | none => none
+    s!" t{t}=" ++ (if idx.isEmpty then "-" else ",".intercalate idx)
+  let unknown := (cls.filter Option.isNone).length
+  s!"n={got.length}" ++ String.join seqs ++ s!" unknown={unknown}"
+
+/-- what the property demands of a `cdrain`: every payload of every thread once, each thread's in its order -/
+def wantByThread (threads count : Nat) : String :=
+  let seq := ",".intercalate ((List.range count).map toString)
+  s!"n={threads * count}" ++ String.join ((List.range threads).map fun t => s!" t{t}=" ++ (if count == 0 then "-" else seq)) ++ " unknown=0"
 
 def natArg (s : String) : Option Nat := s.toNat?
 
@@ -147,6 +176,41 @@ def stepCore (st : St) (tok : List String) (_line : String) (impl : Option Strin
         | some i => if i == s!"sent={specK}" then "ok" else s!"viol:limit-send:burst expected sent={specK}"
       (put dir d', s!"sent={k}", verdict)
     | _, _, _, _ => (st, "bad-op", "ok")
+  | ["csend", dir, threads, count, len, seed, _sndbuf] =>
+    match pick dir, natArg threads, natArg count, natArg len, natArg seed with
+    | some d, some nT, some cnt, some n, some sd =>
+      let payloads := (List.range nT).map fun t => (List.range cnt).map fun i => cpayload n sd t i
+      -- every frame is taken by the kernel in three pieces: 13 bytes (inside the header), half of the rest, the rest
+      let callsOf (t : Nat) (ps : List Bytes) : List Frames.SendCall :=
+        (List.range ps.length).filterMap fun i =>
+          let p := ps.getD i []
+          let nonce := nonceOf (d.sends + t * cnt + i)
+          (Frames.send st.key nonce p).map fun f =>
+            let rest := f.drop 13
+            { nonce := nonce, payload := p, pieces := [f.take 13, rest.take (rest.length / 2), rest.drop (rest.length / 2)] }
+      let calls := (List.range nT).map fun t => callsOf t (payloads.getD t [])
+      -- the threads are scheduled round-robin, one interaction with the socket or the lock at a time
+      let sched := (List.range (4 * nT * cnt + 4)).flatMap fun _ => List.range nT
+      let s := Frames.Senders.runAsCoded (Frames.Senders.init fun t => calls.getD t []) sched
+      let r := Frames.feed st.key d.reader s.wire
+      let sent := "sent=" ++ "/".intercalate (calls.map fun c => toString c.length)
+      let want := "sent=" ++ "/".intercalate ((List.range nT).map fun _ => toString cnt)
+      let verdict := match impl with
+        | none => "ok"
+        | some i => if i == want || n > Spec.Frames.maxPayload then "ok" else s!"viol:concurrent-delivery:a concurrent send was refused, expected {want}"
+      (put dir { d with reader := r, sends := d.sends + nT * cnt, cexpect := payloads }, sent, verdict)
+    | _, _, _, _, _ => (st, "bad-op", "ok")
+  | ["cdrain", dir, _ms] =>
+    match pick dir with
+    | some d =>
+      let fresh := d.reader.delivered.drop d.printed
+      let model := (if d.reader.ended.isSome then "ended " else "") ++ fmtByThread d.cexpect fresh
+      let want := wantByThread d.cexpect.length ((d.cexpect.getD 0 []).length)
+      let verdict := match impl with
+        | none => "ok"
+        | some i => if i == want then "ok" else s!"viol:concurrent-delivery:expected {want.take 160}"
+      (put dir { d with printed := d.reader.delivered.length, expect := [], cexpect := [] }, model, verdict)
+    | none => (st, "bad-op", "ok")
   | ["drain", dir] =>
     match pick dir with
     | some d =>
